@@ -68,7 +68,7 @@ func childChain(sc Scenario, failAt int, mirror string) {
 		}()
 		select {
 		case <-done:
-		case <-time.After(15 * time.Second):
+		case <-time.After(30 * time.Second):
 			// the operation never returned: deadlock (or livelock) after the failed write
 			db.CurOp = i
 			db.Marker('H')
@@ -122,7 +122,7 @@ func childTrie(failAt int, mirror string) {
 	}()
 	select {
 	case <-done:
-	case <-time.After(8 * time.Second):
+	case <-time.After(12 * time.Second):
 		db.Marker('H')
 		os.Exit(exitDeadlock)
 	}
